@@ -16,6 +16,9 @@ Step(ev) ==
        [] ev.op = "bootstrap_counts" ->
              /\ ev.nrows = ev.b /\ ev.rowlens = <<ev.n>> /\ ev.foreign = 0
              /\ UniformWithinBand(ev.counts, ev.n, ev.b * ev.n)
+       [] ev.op = "bootstrap_slots" ->      \* every slot of every resample (the first one included) draws every position equally often
+             /\ ev.bad = 0 /\ Len(ev.counts) = ev.b * ev.n
+             /\ \A c \in 1..Len(ev.counts) : UniformWithinBand(ev.counts[c], ev.n, ev.calls)
 Next == l <= Len(Rec) /\ Step(Rec[l]) /\ l' = l + 1
 Spec == Init /\ [][Next]_l
 Accepted == LET d == TLCGet("stats").diameter IN
